@@ -167,6 +167,11 @@ func EnumFileSets(tier string) (sets []FileSet, rule string, snapshotCases int) 
 			}
 			snapshotCases += len(fs.Hists)
 			sets = append(sets, fs)
+			// the same files with frames that carry no stream in front of and between the first packets
+			nfs := FileSet{Files: ref.Case{Set: set.Name, Interleave: il, Link: "eth", Cuts: cuts, Noise: "arp@0,lldp@1"}, Snap: true}
+			nfs.Hists = append(nfs.Hists, History{Batches: [][]int{{0}, {1}, {2}}}, History{Batches: [][]int{{0, 1}, {2}}}, History{Batches: [][]int{{0}, {1}, {2}}, Restart: []bool{true, true}})
+			snapshotCases += len(nfs.Hists)
+			sets = append(sets, nfs)
 		}
 	}
 	if !thorough {
@@ -184,6 +189,12 @@ func EnumFileSets(tier string) (sets []FileSet, rule string, snapshotCases int) 
 				fs.Hists = append(fs.Hists, History{Batches: [][]int{{1}, {0}, {2}}, Restart: []bool{true, true}})
 				snapshotCases += len(fs.Hists)
 				sets = append(sets, fs)
+				// frames that carry no stream (an ARP request first, an ICMP echo between the packets of the observed
+				// connection) in the capture a later import has to go back to through the snapshot's packet references
+				nfs := FileSet{Files: ref.Case{Set: set.Name, Interleave: set.Interleaves[0], Link: "eth", Cuts: cuts, Noise: "arp@0,icmp@2"}, Snap: true}
+				nfs.Hists = append(nfs.Hists, History{Batches: [][]int{{0}, {1}, {2}}}, History{Batches: [][]int{{0, 1}, {2}}})
+				snapshotCases += len(nfs.Hists)
+				sets = append(sets, nfs)
 				continue
 			}
 			if set.Name != "snap-trigger" && set.Name != "snap-longlived" && set.Name != "snap-boundary-last" && set.Name != "snap-handshake" {
